@@ -216,12 +216,14 @@ func (g *gorMon) settle(wait time.Duration) (map[string]*gInfo, int) {
 	deadline := time.Now().Add(wait)
 	everBusy := map[string]int{}
 	lastShape, since := "", time.Now()
+	polls := 0
 	for {
+		polls++
 		now := goroutineSigs()
 		ex := map[string]*gInfo{}
 		for k, v := range now {
-			if v.busy > everBusy[k] {
-				everBusy[k] = v.busy
+			if v.busy > 0 {
+				everBusy[k]++ // number of samples in which a goroutine of this kind was computing
 			}
 			b := 0
 			if bv := g.baseSigs[k]; bv != nil {
@@ -254,9 +256,10 @@ func (g *gorMon) settle(wait time.Duration) (map[string]*gInfo, int) {
 			lastShape, since = shape, time.Now()
 		}
 		if time.Now().After(deadline) || time.Since(since) > 1500*time.Millisecond {
+			// a goroutine that was computing in most samples is busy even if the last sample caught it waiting
 			for k, gi := range ex {
-				if everBusy[k] > gi.busy {
-					gi.busy = everBusy[k]
+				if gi.busy == 0 && polls > 2 && 2*everBusy[k] > polls {
+					gi.busy = 1
 				}
 			}
 			return ex, population(now)
